@@ -226,8 +226,8 @@ def bg_correct(raw, bg, df=None):
 
     def signed(image):
         # unsigned camera counts wrap around in a difference whenever the
-        # result should be negative
-        return image.astype('float64') if image.dtype.kind == 'u' else image
+        # result should be negative, narrow signed ones when it does not fit
+        return image.astype('float64') if image.dtype.kind in 'ui' else image
 
     holo = (signed(raw) - signed(df)) / zero_filter(signed(bg) - signed(df))
     holo = copy_metadata(raw, holo)
